@@ -49,7 +49,10 @@ FitClauses(r) ==
 CondFixClauses(r) ==
   IF r.exc # "" THEN << <<"UnexpectedException", FALSE>> >>
   ELSE <<
-    <<"FixedSameForAllGiven", r.preok /\ r.postok /\ r.ngiven >= 4>>,
+    (* dtypeok: pdf / cdf / icdf / seeded draw_sample with the conditioning values as int64 array, *)
+    (* list of python ints, float32 array equal, bit for bit, the call with the same values as     *)
+    (* float64 array (a fixed value must not take the dtype of given), before and after the fit    *)
+    <<"FixedSameForAllGiven", r.preok /\ r.postok /\ r.ngiven >= 4 /\ r.dtypeok>>,
     <<"FixedStableInIntervals", r.fitdev <= FixedTolE15 /\ r.nint >= 3>>,
     (* ConditionalDistribution.fit(data, values, boundaries) without `method` ("defaults to the   *)
     (* distribution's default") gives bit for bit the per-interval parameters of method = "mle"    *)
